@@ -1,0 +1,44 @@
+//go:build verif
+
+package outbox
+
+import (
+	"context"
+	"database/sql"
+	"fmt"
+
+	"github.com/jdillenkofer/pithos/internal/storage"
+	"github.com/jdillenkofer/pithos/internal/storage/database"
+)
+
+// The functions in this file exist only in builds with the "verif" tag. They
+// let the external verification harness run the outbox worker's existing step
+// at chosen points instead of waiting for the 1 s timer; they change no
+// behaviour.
+
+// VerifProcessOnce runs one pass of the worker step (maybeProcessOutboxEntries):
+// it claims and replays queued entries in order until none is claimable or one
+// fails.
+func VerifProcessOnce(ctx context.Context, s storage.Storage) error {
+	os, ok := s.(*outboxStorage)
+	if !ok {
+		return fmt.Errorf("not an outbox storage: %T", s)
+	}
+	os.maybeProcessOutboxEntries(ctx)
+	return nil
+}
+
+// VerifPendingCount returns the number of entries that are still queued.
+func VerifPendingCount(ctx context.Context, s storage.Storage) (int, error) {
+	os, ok := s.(*outboxStorage)
+	if !ok {
+		return 0, fmt.Errorf("not an outbox storage: %T", s)
+	}
+	var n int
+	err := database.WithTx(ctx, os.db, &sql.TxOptions{ReadOnly: true}, func(ctx context.Context, tx database.Tx) error {
+		var err error
+		n, err = os.storageOutboxEntryRepository.Count(ctx, tx.SqlTx(), os.outboxId)
+		return err
+	})
+	return n, err
+}
